@@ -133,6 +133,15 @@ func CheckC19(c *Ctx) {
 						if strings.Contains(cond, "len"+recName) && strings.Contains(cond, strings.NewReplacer("(", "", ")", "").Replace(idx)) {
 							if _, ok := endsWithExit(is.Body); ok {
 								guarded = true
+								// the guard leaves for every index that is not below the length (decided on small values)
+								rc := resolveLocals(hinfo, body, is.Cond)
+								for I := int64(0); I <= 2 && guarded; I++ {
+									for L := int64(0); L <= 2; L++ {
+										if v, dec := idxLenCond(hinfo, rc, idx, recName, I, L); dec && I >= L && !v {
+											guarded = false
+										}
+									}
+								}
 							}
 						}
 					}
@@ -277,9 +286,62 @@ func CheckC19(c *Ctx) {
 			if !isIf {
 				return true
 			}
-			if strings.Contains(exprString(is.Cond), "json.Delim('[')") {
-				if k, e := endsWithExit(is.Body); e && k == "return" {
-					ok = true
+			// the test may live in an unexported helper handed the delimiter: `if !isDelim(.., json.Delim('['), ..) { return }`
+			// where the helper answers false exactly when the token differs from that parameter
+			if u, isNot := ast.Unparen(is.Cond).(*ast.UnaryExpr); isNot && u.Op == token.NOT {
+				if call, isCall := ast.Unparen(u.X).(*ast.CallExpr); isCall {
+					if fn := callee(hinfo, call); fn != nil && !fn.Exported() {
+						if d := c.P.Decls[fn.Origin()]; d != nil && d.Decl.Body != nil {
+							for j, a := range call.Args {
+								if !strings.Contains(exprString(a), "json.Delim('[')") {
+									continue
+								}
+								pi := 0
+								var pobj types.Object
+								for _, f := range d.Decl.Type.Params.List {
+									for _, nm := range f.Names {
+										if pi == j {
+											pobj = hinfo.ObjectOf(nm)
+										}
+										pi++
+									}
+								}
+								ast.Inspect(d.Decl.Body, func(m ast.Node) bool {
+									is2, isIf2 := m.(*ast.IfStmt)
+									if !isIf2 {
+										return true
+									}
+									be2, isBin2 := ast.Unparen(is2.Cond).(*ast.BinaryExpr)
+									if !isBin2 || be2.Op != token.NEQ || pobj == nil || !(usesObj(hinfo, be2.X, pobj) || usesObj(hinfo, be2.Y, pobj)) {
+										return true
+									}
+									if n2 := len(is2.Body.List); n2 > 0 {
+										if r, isRet := is2.Body.List[n2-1].(*ast.ReturnStmt); isRet && len(r.Results) == 1 && exprString(r.Results[0]) == "false" {
+											if k, e := endsWithExit(is.Body); e && k == "return" {
+												ok = true
+											}
+										}
+									}
+									return true
+								})
+							}
+						}
+					}
+				}
+			}
+			if be, isBin := ast.Unparen(is.Cond).(*ast.BinaryExpr); isBin && (strings.Contains(exprString(be.X), "json.Delim('[')") || strings.Contains(exprString(be.Y), "json.Delim('[')")) {
+				// the reader leaves exactly when the first token is NOT the opening bracket
+				switch be.Op {
+				case token.NEQ:
+					if k, e := endsWithExit(is.Body); e && k == "return" {
+						ok = true
+					}
+				case token.EQL:
+					if eb, isBlock := is.Else.(*ast.BlockStmt); isBlock {
+						if k, e := endsWithExit(eb); e && k == "return" {
+							ok = true
+						}
+					}
 				}
 			}
 			return true
@@ -1857,4 +1919,76 @@ func (c *Ctx) decodeTargets() {
 	}
 	run.Count("json_decode_targets", n)
 	run.Floor("json_decode_targets", 3)
+}
+
+// idxLenCond evaluates a condition over the index expression (by its text) and len(rec) for the
+// values I and L; decided=false when it contains anything else.
+func idxLenCond(info *types.Info, cond ast.Expr, idxText, rec string, I, L int64) (bool, bool) {
+	strip := strings.NewReplacer("(", "", ")", "")
+	var val func(e ast.Expr) (int64, bool)
+	val = func(e ast.Expr) (int64, bool) {
+		e = ast.Unparen(e)
+		if k, isC := constInt(info, e); isC {
+			return k, true
+		}
+		if strip.Replace(exprString(e)) == strip.Replace(idxText) {
+			return I, true
+		}
+		if call, ok := e.(*ast.CallExpr); ok && len(call.Args) == 1 {
+			if id, ok := call.Fun.(*ast.Ident); ok && id.Name == "len" && exprString(call.Args[0]) == rec {
+				return L, true
+			}
+		}
+		if be, ok := e.(*ast.BinaryExpr); ok && (be.Op == token.ADD || be.Op == token.SUB) {
+			l, ok1 := val(be.X)
+			r, ok2 := val(be.Y)
+			if ok1 && ok2 {
+				if be.Op == token.ADD {
+					return l + r, true
+				}
+				return l - r, true
+			}
+		}
+		return 0, false
+	}
+	cond = ast.Unparen(cond)
+	switch x := cond.(type) {
+	case *ast.UnaryExpr:
+		if x.Op == token.NOT {
+			v, d := idxLenCond(info, x.X, idxText, rec, I, L)
+			return !v, d
+		}
+	case *ast.BinaryExpr:
+		if x.Op == token.LAND || x.Op == token.LOR {
+			l, d1 := idxLenCond(info, x.X, idxText, rec, I, L)
+			r, d2 := idxLenCond(info, x.Y, idxText, rec, I, L)
+			if !d1 || !d2 {
+				return false, false
+			}
+			if x.Op == token.LAND {
+				return l && r, true
+			}
+			return l || r, true
+		}
+		l, ok1 := val(x.X)
+		r, ok2 := val(x.Y)
+		if !ok1 || !ok2 {
+			return false, false
+		}
+		switch x.Op {
+		case token.EQL:
+			return l == r, true
+		case token.NEQ:
+			return l != r, true
+		case token.LSS:
+			return l < r, true
+		case token.LEQ:
+			return l <= r, true
+		case token.GTR:
+			return l > r, true
+		case token.GEQ:
+			return l >= r, true
+		}
+	}
+	return false, false
 }
